@@ -4,6 +4,7 @@
   `MemResizable::resize` of the model, for the heap backend and the relocating user backend.
 -/
 import AnyVecModel.Proofs.Vec
+import AnyVecModel.Proofs.KernelCap
 namespace AnyVec
 namespace C10
 
@@ -227,6 +228,29 @@ def emptyHeap : VecSt :=
 example : (pushesCap 9 emptyHeap 0).map (fun r => (r.1.cap, r.2)) = some (16, 5) := by decide
 example : emptyHeap.WF := by decide
 example : (emptyHeap.reserve 3).isOk = true := by decide
+
+/-! ### tie to the source text -/
+
+/-- **source tie**: the model's capacity calls are the functions of `/repo/src/any_vec_raw.rs` and
+`/repo/src/mem/{heap,mod}.rs` as re-translated on this run (`Gen/Kernel.lean`), composed with the modelled
+backend call: same checked addition, same comparison, same request, same growth policy. -/
+theorem capacity_calls_are_the_source (v : VecSt) (n : Nat) :
+    v.reserve n = KernelTie.applyEff v (Gen.Kernel.reserve v.len v.cap n) ∧
+    v.reserveExact n = KernelTie.applyEff v (Gen.Kernel.reserve_exact v.len v.cap n) ∧
+    v.shrinkToFit = KernelTie.applyEff v (Gen.Kernel.shrink_to_fit v.len v.cap) ∧
+    v.shrinkTo n = KernelTie.applyEff v (Gen.Kernel.shrink_to v.len v.cap n) ∧
+    v.memExpandExact n = KernelTie.applyEff v (Gen.Kernel.expand_exact_default v.cap n) :=
+  ⟨KernelTie.reserve_tie v n, KernelTie.reserve_exact_tie v n, (KernelTie.shrink_tie v n).1, (KernelTie.shrink_tie v n).2,
+   KernelTie.expand_exact_tie v n⟩
+
+theorem heap_growth_is_the_source (v : VecSt) (a : Nat) (hb : v.bk = .heap) :
+    v.memExpand a =
+      match Gen.Kernel.heap_expand v.cap a with
+      | .ok (.resize n) => v.heapResize n
+      | .ok _ => .ub "kernel: unexpected result"
+      | .panic m => .panic m
+      | .ub m => .ub m :=
+  KernelTie.heap_expand_tie v a hb
 
 end C10
 end AnyVec
